@@ -157,3 +157,295 @@ def impl_params(text):
 def impl_apos(text):
     from compare_locales.checks import android as A
     return " | ".join(["ok"] + show_results(list(A.check_apostrophes(text)), ""))
+
+
+# ====================================================================== round 4: the parser (Ops/C09.lean c09.*)
+from compare_locales.checks.base import EntityPos  # noqa: E402
+from compare_locales.parser.android import (AndroidParser, DocumentWrapper, XMLComment, XMLJunk,  # noqa: E402
+                                            XMLWhitespace)
+
+RE_JUNKKEY = re.compile(r"_junk_(\d+)_0-0\Z")
+
+
+def dump_node(n):
+    """minidom node -> tokens of Ops/C09.lean parseDNode (a plain structural dump: no parser logic here)"""
+    t = n.nodeType
+    if t == n.ELEMENT_NODE:
+        attrs = n.attributes
+        names = list(attrs.keys())
+        toks = ["E", enc(n.nodeName), str(len(names))]
+        for a in names:
+            toks += [enc(a), enc(attrs[a].value)]
+        toks.append(str(len(n.childNodes)))
+        for c in n.childNodes:
+            toks += dump_node(c)
+        return toks
+    if t == n.TEXT_NODE:
+        return ["T", enc(n.data)]
+    if t == n.CDATA_SECTION_NODE:
+        return ["C", enc(n.data)]
+    if t == n.COMMENT_NODE:
+        return ["M", enc(n.data)]
+    if t == n.PROCESSING_INSTRUCTION_NODE:
+        return ["P", enc(n.target), enc(n.data)]
+    if t == n.DOCUMENT_TYPE_NODE:
+        return ["D", enc(n.name), enc(n.publicId or ""), "-" if n.systemId is None else enc(n.systemId),
+                "-" if n.internalSubset is None else enc(n.internalSubset)]
+    raise ValueError("node type %r" % t)
+
+
+def dump_ctx(text):
+    """the input of the walk model: what minidom.parseString makes of the text (an independent call)"""
+    if text is None:
+        return ["none"]
+    try:
+        doc = minidom.parseString(text.encode("utf-8"))
+    except Exception:
+        return ["err", enc(text)]
+    toks = ["doc", enc(text), str(len(doc.childNodes))]
+    for c in doc.childNodes:
+        toks += dump_node(c)
+    return toks
+
+
+def build_node(doc, spec):
+    """hand-made DOM nodes (not from the XML parser): ["E", name, [[a, v]…], [child…]] | ["T"|"C"|"M", data] | ["P", t, d]"""
+    k = spec[0]
+    if k == "E":
+        el = doc.createElement(spec[1])
+        for a, v in spec[2]:
+            el.setAttribute(a, v)
+        for c in spec[3]:
+            el.appendChild(build_node(doc, c))
+        return el
+    if k == "T":
+        return doc.createTextNode(spec[1])
+    if k == "C":
+        return doc.createCDATASection(spec[1])
+    if k == "M":
+        return doc.createComment(spec[1])
+    if k == "P":
+        return doc.createProcessingInstruction(spec[1], spec[2])
+    raise ValueError(k)
+
+
+def _toxml_canon(n):
+    try:
+        return "ok " + enc(n.toxml())
+    except ValueError:
+        return "raise"
+
+
+def impl_toxml(kind, payload):
+    """-> {"lines": [...], "canons": [...]}: `toxml()` of the document element and of each of its descendants
+    (kind "text": parsed from the text) or of one hand-made node (kind "build")"""
+    lines, canons = [], []
+    if kind == "build":
+        n = build_node(minidom.Document(), payload)
+        lines.append("c09.toxml " + " ".join(dump_node(n)))
+        canons.append(_toxml_canon(n))
+        return {"lines": lines, "canons": canons}
+    try:
+        doc = minidom.parseString(payload.encode("utf-8"))
+    except Exception:
+        return {"lines": [], "canons": []}
+    todo = list(doc.childNodes)
+    while todo:
+        n = todo.pop(0)
+        lines.append("c09.toxml " + " ".join(dump_node(n)))
+        canons.append(_toxml_canon(n))
+        if n.nodeType == n.ELEMENT_NODE:
+            todo += list(n.childNodes)
+    return {"lines": lines, "canons": canons}
+
+
+def _lit(tag, x, value_attr):
+    if x is None:
+        return "%s:-" % tag
+    return "%s:%s;%s" % (tag, enc(x.all), enc(getattr(x, value_attr)))
+
+
+def canon_entries(entries):
+    """canonical form of Ops/C09.lean showEntries; -> (canon, facts) where facts feed the harness oracle"""
+    parts = ["ok"]
+    facts = {"entities": [], "junk": 0, "alls": [], "classes": []}
+    for e in entries:
+        key = e.key
+        k = "-" if key is None else enc(key)
+        if isinstance(e, DocumentWrapper):
+            parts.append("W %s %s %s" % (k, enc(e.all), enc(e.raw_val)))
+            facts["classes"].append("W")
+        elif isinstance(e, XMLWhitespace):
+            parts.append("S %s %s %s" % (k, enc(e.all), enc(e.raw_val)))
+            facts["classes"].append("S")
+        elif isinstance(e, XMLComment):
+            parts.append("K %s %s %s" % (k, enc(e.all), enc(e.raw_val)))
+            facts["classes"].append("K")
+            if e.val != e.raw_val:
+                parts.append("?comment-val")
+        elif isinstance(e, AndroidEntity):
+            parts.append("N %s %s %s %s %s %s" % (k, enc(e.all), enc(e.raw_val), enc(e._val_literal),
+                                                 _lit("p", e.pre_comment, "val"), _lit("i", e.inner_white, "raw_val")))
+            facts["entities"].append([e.key, e.raw_val, e.val, None if e.pre_comment is None else e.pre_comment.val])
+            facts["classes"].append("N")
+        elif isinstance(e, XMLJunk):
+            m = RE_JUNKKEY.match(e.key)
+            parts.append("J %s %s %s" % (m.group(1) if m else "?" + e.key, enc(e.all), enc(e.raw_val)))
+            facts["junk"] += 1
+            facts["classes"].append("J")
+        else:
+            parts.append("?" + type(e).__name__)
+            facts["classes"].append("?")
+        facts["alls"].append(e.all)
+    return " | ".join(parts), facts
+
+
+_REUSED = AndroidParser()
+
+
+def _strip_counters(canon):
+    return re.sub(r"(^| \| )J \d+ ", r"\1J # ", canon)
+
+
+def impl_walk(text, ol):
+    """one document through AndroidParser.walk(only_localizable=ol) with a fresh parser, and again through a parser
+    object that lives as long as the worker process (history)"""
+    start = XMLJunk.junkid
+    p = AndroidParser()
+    if text is not None:
+        p.readUnicode(text)
+    line = "c09.walk %d %d %s" % (1 if ol else 0, start, " ".join(dump_ctx(text)))
+    try:
+        entries = list(p.walk(only_localizable=ol))
+    except Exception as e:       # noqa
+        return {"canon": "raise", "line": line, "exc": "%s: %s" % (type(e).__name__, e)}
+    canon, facts = canon_entries(entries)
+    out = {"canon": canon, "line": line, "facts": facts}
+    # history: the same text through the long-lived parser, twice
+    try:
+        again = []
+        for _ in range(2):
+            if text is not None:
+                _REUSED.readUnicode(text)
+            else:
+                _REUSED.ctx = None
+            again.append(_strip_counters(canon_entries(list(_REUSED.walk(only_localizable=ol)))[0]))
+        out["history_same"] = again[0] == again[1] == _strip_counters(canon)
+    except Exception as e:       # noqa
+        out["history_same"] = False
+        out["history_exc"] = "%s: %s" % (type(e).__name__, e)
+    # Parser.parse() / __iter__ = walk(only_localizable=True)
+    if ol and text is not None:
+        try:
+            q = AndroidParser()
+            q.readUnicode(text)
+            out["parse_same"] = _strip_counters(canon_entries(list(q.parse()))[0]) == _strip_counters(canon)
+        except Exception as e:   # noqa
+            out["parse_same"] = False
+    return out
+
+
+def impl_norm(text):
+    from compare_locales.parser.android import normalize
+    return "ok %s %d %d" % (enc(normalize(text)), text.count("\n"), text.count("\n"))
+
+
+def impl_pos(text, offset):
+    """position(offset) / value_position(offset) of every entry of walk()"""
+    p = AndroidParser()
+    if text is not None:
+        p.readUnicode(text)
+    line = "c09.pos %d %s" % (offset, " ".join(dump_ctx(text)))
+    parts = ["ok"]
+    wellformed = True
+    for e in p.walk():
+        a = e.position(offset)
+        b = e.value_position(offset)
+        for t in (a, b):
+            if not (isinstance(t, tuple) and len(t) == 2 and all(type(x) is int for x in t)):
+                wellformed = False
+        parts.append("%s %s %s %s" % (a[0], a[1], b[0], b[1]))
+    # the defaults (offset=0)
+    defaults = [(e.position(), e.value_position()) for e in p.walk()]
+    return {"canon": " | ".join(parts), "line": line, "wellformed": wellformed,
+            "defaults_zero": all(a == (0, 0) and b == (0, 0) for a, b in defaults)}
+
+
+def _check_results(checker, refent, l10nent):
+    out = []
+    for tp, pos, msg, cat in checker.check(refent, l10nent):
+        # as ContentComparer.compare does
+        if isinstance(pos, EntityPos):
+            line, col = l10nent.position(pos)
+        else:
+            line, col = l10nent.value_position(pos)
+        s = {"error": "e", "warning": "w"}.get(tp, "?" + str(tp))
+        ok = isinstance(line, int) and isinstance(col, int) and line == 0 and col >= 0
+        out.append("%s %s%s %s" % (s, "" if ok else "?%r," % (line,), col, msg_code(msg, cat, l10nent.key)))
+    return out
+
+
+def impl_doccheck(ref_text, l10n_text):
+    """both documents through Parser.parse(); every localized AndroidEntity whose key the reference has through
+    checker.check, with ONE checker for the document (as ContentComparer.compare) and with a fresh one per entity"""
+    line = "c09.doccheck %s %s" % (" ".join(dump_ctx(ref_text)), " ".join(dump_ctx(l10n_text)))
+    try:
+        pr = AndroidParser()
+        pr.readUnicode(ref_text)
+        ref = pr.parse()
+        pl = AndroidParser()
+        pl.readUnicode(l10n_text)
+        l10n = pl.parse()
+    except Exception as e:       # noqa
+        return {"canon": "raise", "line": line, "exc": "%s: %s" % (type(e).__name__, e)}
+    checker = getChecker(FILE)
+    parts, fresh, groups = ["ok"], ["ok"], []
+    for e in l10n:
+        if not isinstance(e, AndroidEntity) or e.key not in ref:
+            continue
+        refent = ref[e.key]
+        if not isinstance(refent, AndroidEntity):
+            continue
+        for target, ck in ((parts, checker), (fresh, getChecker(FILE))):
+            try:
+                rs = _check_results(ck, refent, e)
+            except Exception as ex:      # noqa
+                rs = ["raise"]
+                groups.append({"key": e.key, "exc": "%s: %s" % (type(ex).__name__, ex)})
+            target.append(" ; ".join([enc(e.key)] + rs))
+    return {"canon": " | ".join(parts), "line": line, "history_same": parts == fresh, "raised": groups,
+            "checker": type(checker).__name__}
+
+
+def impl_wrap(text, raw):
+    """e.wrap(raw) of every AndroidEntity of the document -> (key, raw_val, all) of the LiteralEntity"""
+    p = AndroidParser()
+    p.readUnicode(text)
+    line = "c09.wrap %s %s" % (enc(raw), " ".join(dump_ctx(text)))
+    parts = ["ok"]
+    kinds = []
+    bad = []
+    for e in p.walk(only_localizable=True):
+        if not isinstance(e, AndroidEntity):
+            continue
+        try:
+            w = e.wrap(raw)
+            parts.append("%s %s %s" % (enc(w.key), enc(w.raw_val), enc(w.all)))
+            kinds.append(type(w).__name__)
+            # independent expectation: for plain content (one text node, or one CDATA section among white-space) the
+            # wrapped text parses back to an entity with the same key and the new value
+            cs = list(e.node.childNodes)
+            cds = [c for c in cs if c.nodeType == c.CDATA_SECTION_NODE]
+            txt = [c for c in cs if c.nodeType == c.TEXT_NODE]
+            plain = len(cs) == len(cds) + len(txt) and ((len(cs) == 1 and len(txt) == 1) or (
+                len(cds) == 1 and all(c.data.strip() == "" for c in txt)))
+            if plain and raw != "" and raw.strip() == raw:
+                q = AndroidParser()
+                q.readUnicode("<resources>%s</resources>" % w.all)
+                back = [x for x in q.walk() if isinstance(x, AndroidEntity)]
+                if len(back) != 1 or back[0].key != e.key or back[0].raw_val != raw:
+                    bad.append([e.key, w.all, [[x.key, x.raw_val] for x in back]])
+        except (UnboundLocalError, ValueError) as ex:
+            parts.append("raise:" + type(ex).__name__)
+            kinds.append("raise")
+    return {"canon": " | ".join(parts), "line": line, "kinds": kinds, "roundtrip_bad": bad}
